@@ -44,6 +44,48 @@ class InfoSim(cm.Simulator):
         return super()._stmt(st, facts, in_threads, path)
 
 
+_WC = {}
+
+
+def _case_worker(args):
+    repo, fn = args
+    c = _WC.get(repo)
+    if c is None:
+        c = cf.load_c(repo, files=["lapack.c"])["lapack.c"]
+        _WC[repo] = c
+    ext = set(c.externs)
+    sim = InfoSim(c, fn)
+    sim.sign_vars = [v for v in sim.sign_vars if v != "info"]
+    bad_info = None
+    n_info_calls = 0
+    flag_bad = None
+    gil_bad = None
+    ncase = 0
+    for case in sim.cases():
+        ncase += 1
+        sites, end = sim.run(case, ext)
+        pending = None
+        for ev, nm, node in sim.events:
+            if ev == "call":
+                pending = (nm, node)
+                n_info_calls += 1
+            elif ev == "check":
+                pending = None
+            elif ev == "return" and pending is not None and bad_info is None:
+                bad_info = (pending[0], repr(case), c.line_of(node.get("b")))
+        for s in sites:
+            base = kbl.lookup(s.callee)
+            if base and s.case.mid == "COMPLEX":
+                for (pname, role), a in zip(kbl.ROUTINES[base], s.args):
+                    if role == "flag" and a is not None:
+                        v = cg.scalar_var(a)
+                        if v and v in case.flags and s.case.flags.get(v) != case.flags[v] and flag_bad is None:
+                            flag_bad = (s.callee, v, case.flags[v], s.case.flags.get(v), c.line_of(s.node.get("b")))
+            if any("select" in t or "fselect" in t for t in s.args_text) and s.in_threads and gil_bad is None:
+                gil_bad = (s.callee, c.line_of(s.node.get("b")))
+    return fn, bad_info, n_info_calls, flag_bad, gil_bad, dict(sim.flag_vars), ncase
+
+
 def build(tier, repo):
     chk = Check(
         "C18", tier, repo,
@@ -79,36 +121,17 @@ def build(tier, repo):
     r4 = chk.rule("C18-R4", "workspace element types match; select callbacks run under the GIL",
                   "workspace handling / Schur select callbacks")
     ncase = 0
-    for fn in wrappers:
-        sim = InfoSim(c, fn)
-        sim.sign_vars = [v for v in sim.sign_vars if v != "info"]
+    from concurrent.futures import ProcessPoolExecutor
+    with ProcessPoolExecutor(max_workers=12) as ex:
+        results = list(ex.map(_case_worker, [(repo, fn) for fn in wrappers]))
+    for fn, bad_info, n_info_calls, flag_bad, gil_bad, flag_vars, nc in results:
+        ncase += nc
         where = "src/C/lapack.c:%s" % fn
-        bad_info = None
-        n_info_calls = 0
-        flag_bad = None
-        gil_bad = None
-        for case in sim.cases():
-            ncase += 1
-            sites, end = sim.run(case, ext)
-            pending = None
-            for ev, nm, node in sim.events:
-                if ev == "call":
-                    pending = (nm, node)
-                    n_info_calls += 1
-                elif ev == "check":
-                    pending = None
-                elif ev == "return" and pending is not None and bad_info is None:
-                    bad_info = (pending[0], repr(case), c.line_of(node.get("b")))
-            for s in sites:
-                base = kbl.lookup(s.callee)
-                if base and s.case.mid == "COMPLEX":
-                    for (pname, role), a in zip(kbl.ROUTINES[base], s.args):
-                        if role == "flag" and a is not None:
-                            v = cg.scalar_var(a)
-                            if v and v in case.flags and s.case.flags.get(v) != case.flags[v] and flag_bad is None:
-                                flag_bad = (s.callee, v, case.flags[v], s.case.flags.get(v), c.line_of(s.node.get("b")))
-                if any("select" in t or "fselect" in t for t in s.args_text) and s.in_threads and gil_bad is None:
-                    gil_bad = (s.callee, c.line_of(s.node.get("b")))
+
+        class _S:
+            pass
+        sim = _S()
+        sim.flag_vars = flag_vars
         if n_info_calls:
             if bad_info:
                 r1.violation("%s:info tested" % fn, where + ":%d" % bad_info[2],
